@@ -11,7 +11,14 @@ for d in "$@"; do
   if ! git -C "$WT/r" apply "$(readlink -f $P)" 2>/dev/null; then echo "$P: DOES-NOT-APPLY"; git -C /repo worktree remove --force "$WT/r"; rm -rf "$WT" "$EV"; continue; fi
   cp known_findings.json MANIFEST.json "$EV/"
   alarms=""
-  for id in $PROPS; do
+  if [ -n "${SWEEP:-}" ]; then
+    # one load of the tree for all 18 checks, controls off (a control cannot fail a check)
+    out=$(${BIN:-./bin/gocoverif} sweep --repo "$WT/r" --verif "$EV" 2>&1)
+    alarms=$(printf '%s\n' "$out" | sed -n 's/^SWEEP failed://p')
+    [ -n "$alarms" ] && printf '%s\n' "$out" | grep -E 'violation:|undecided' | cut -c1-300 | head -6 | sed "s|^|    |"
+    PROPS_RUN=""
+  else PROPS_RUN=$PROPS; fi
+  for id in $PROPS_RUN; do
     out=$(${BIN:-./bin/gocoverif} check "$id" --repo "$WT/r" --verif "$EV" 2>&1); rc=$?
     if [ $rc -ne 0 ]; then alarms="$alarms $id"; printf '%s\n' "$out" | grep -E 'violation:|undecided|MISSED' | cut -c1-300 | head -3 | sed "s|^|    [$id] |"; fi
   done
